@@ -16,6 +16,7 @@ RULE = ("constructor: every dict over a non-empty subset of {0,1}^w with integer
         "distances: all ordered pairs of a pool of distributions (equal supports in different insertion orders included) x kernel widths: MMD symmetric, >= 0, "
         "0 on (p,p) and on equal copies; clipped NLL >= entropy - log(1+K eps); JS symmetric; save/load. non-trivial = at least two outcomes with different weights")
 RULE += ' Also: kernel widths as tuple / numpy array; tiny negative weights (-1e-13, -1e-15, -1e-300) must be rejected.'
+RULE += " Round 6: almost normalised input (total 1 +- 1e-5 .. 1e-8, float32 probabilities); squared MMD on registers of 15-130 subsystems against the definition with exact integer codes (D31)."
 RULE += " Round 5: sparse distributions on 40-72 subsystems (marginals on all / the top four / every other subsystem); ragged keys whose lengths average to the first key's length, in every order."
 ASSUMPTIONS = ["float sums compared at 1e-12", "distances are only compared between distributions on the same number of subsystems"]
 BOUNDS = {"quick": {"w_ctor": 3, "w_marginal": 5, "pool": "80 + reordered/zero-key variants", "sigmas": 4}, "thorough": {"w_ctor": 3, "w_marginal": 6, "pool": "255 (weights 0..3 on 2 bits) + variants", "sigmas": 6}}
@@ -60,6 +61,41 @@ def ctor_case(case):
             return {"ok": False, "msg": "probabilities are not in the proportions of the input", "expected": float(F(w).limit_denominator(1000) / tot), "observed": dd[tuple(b)], "sig": "ctor:proportions"}
     ws = [w for _, w in case["items"]]
     return {"ok": True, "nt": len(set(ws)) >= 2, "out": "accepted"}
+
+
+def near_case(case):
+    """{'weights': [...], 'delta': d, 'style': ...}: input that is ALMOST normalised (total 1 + d, as probabilities written with 5-8 decimals or taken from float32 arrays are):
+    the object built with normalisation on sums to 1 by the library's own rule (relative 1e-9) and keeps the proportions of the input"""
+    from orquestra.quantum.distributions import MeasurementOutcomeDistribution
+    ws = case["weights"]
+    n = max(1, (len(ws) - 1).bit_length())
+    tot = float(sum(ws))
+    inp, exact = {}, {}
+    for i, w in enumerate(ws):
+        bits = [(i >> (n - 1 - b)) & 1 for b in range(n)]
+        inp[keyfmt(bits, case.get("style", "tuple"))] = w / tot * (1 + case["delta"])
+        exact[tuple(bits)] = F(w) / F(sum(F(x) for x in ws))
+    if case.get("f32"):
+        inp = {k_: float(np.float32(v)) for k_, v in inp.items()}
+        t32 = sum(F(v) for v in inp.values())
+        exact = {tuple(preproc(k_)): F(v) / t32 for k_, v in inp.items()}
+    before = dict(inp)
+    d = MeasurementOutcomeDistribution(inp)
+    dd = d.distribution_dict
+    if inp != before:
+        return {"ok": False, "msg": "constructor modified the caller's dictionary", "sig": "near:mutated"}
+    total = math.fsum(dd.values())
+    if any(v < 0 for v in dd.values()) or abs(total - 1) > 2e-9:
+        return {"ok": False, "msg": "input with total %.12g: the normalised object holds probabilities summing to %.12g" % (math.fsum(inp.values()), total), "expected": "1 (relative 1e-9, the library's own rule)",
+                "observed": total, "sig": "near:normalised"}
+    for k_, e_ in exact.items():
+        if abs(dd[k_] - float(e_)) > 2e-9:
+            return {"ok": False, "msg": "probabilities are not in the proportions of the input", "expected": float(e_), "observed": dd[k_], "sig": "near:proportions"}
+    return {"ok": True, "nt": True, "out": "near"}
+
+
+def preproc(k_):
+    return tuple(map(int, k_ if "," not in k_ else k_.split(","))) if isinstance(k_, str) else k_
 
 
 def marginal_case(case):
@@ -188,6 +224,50 @@ def distance_case(case):
     return {"ok": True, "nt": not same, "ops": 6, "out": "same" if same else "diff"}
 
 
+def wide_mmd_case(case):
+    """{'n': width, 'sigma': s, 'pair': k}: squared MMD of sparse distributions on wide registers (outcome codes of 16-130 bits): finite, symmetric, non-negative, zero on (p, p), and
+    equal to the definition sum_ij d_i d_j k(|x_i - x_j|^2) evaluated with exact integer codes"""
+    from orquestra.quantum.distributions import MeasurementOutcomeDistribution, compute_mmd
+    n, sig = case["n"], case["sigma"]
+    hi, lo, ones = tuple([1] + [0] * (n - 1)), tuple([0] * (n - 1) + [1]), tuple([1] * n)
+    mid = tuple([0] * (n // 2) + [1] + [0] * (n - n // 2 - 1))
+    hi2 = tuple([1] + [0] * (n - 2) + [1])          # differs from hi in the LOWEST bit only
+    zero = tuple([0] * n)
+    pairs = [({hi: 1, lo: 1}, {hi: 1, ones: 3}), ({zero: 2, mid: 1, hi: 1}, {lo: 1, hi: 2}), ({hi: 1, hi2: 1}, {hi2: 1, zero: 1}), ({ones: 1}, {zero: 1}), ({hi: 3, mid: 2, lo: 1}, {hi: 3, mid: 2, lo: 1})]
+    dp, dq = pairs[case["pair"]]
+    p_, q_ = MeasurementOutcomeDistribution(dict(dp)), MeasurementOutcomeDistribution(dict(dq))
+    sigs = list(sig) if isinstance(sig, list) else [sig]
+
+    def ref(a, b):
+        keys = sorted(set(a.distribution_dict) | set(b.distribution_dict))
+        code = [int("".join(map(str, k_)), 2) for k_ in keys]
+        d = [a.distribution_dict.get(k_, 0) - b.distribution_dict.get(k_, 0) for k_ in keys]
+        tot = 0.0
+        for i, ci in enumerate(code):
+            for j, cj in enumerate(code):
+                dist2 = (ci - cj) ** 2          # exact Python integer
+                kern = sum(math.exp(-min(float(dist2) / (2 * s_), 745.0)) if float(dist2) / (2 * s_) < 745 else 0.0 for s_ in sigs) / len(sigs)
+                tot += d[i] * d[j] * kern
+        return tot
+    try:
+        m1, m2, mpp = compute_mmd(p_, q_, {"sigma": sig}), compute_mmd(q_, p_, {"sigma": sig}), compute_mmd(p_, p_, {"sigma": sig})
+    except Exception as e:  # noqa: BLE001
+        return {"ok": False, "msg": "squared MMD on a %d-subsystem register raises %s: %s" % (n, type(e).__name__, str(e)[:100]), "sig": "mmd-wide:exception"}
+    for nm, v in (("MMD(p,q)", m1), ("MMD(q,p)", m2), ("MMD(p,p)", mpp)):
+        if not (v == v) or abs(v) == float("inf"):
+            return {"ok": False, "msg": "%s on a %d-subsystem register with kernel width %s is %r" % (nm, n, sig, v), "sig": "mmd-wide:nan"}
+    if abs(m1 - m2) > TOL:
+        return {"ok": False, "msg": "squared MMD on a %d-subsystem register is not symmetric" % n, "expected": m1, "observed": m2, "sig": "mmd-wide:symmetry"}
+    if m1 < -TOL:
+        return {"ok": False, "msg": "squared MMD on a %d-subsystem register with kernel width %s is negative" % (n, sig), "observed": m1, "sig": "mmd-wide:negative"}
+    if abs(mpp) > TOL:
+        return {"ok": False, "msg": "squared MMD between a distribution on %d subsystems and itself is not zero" % n, "observed": mpp, "sig": "mmd-wide:self"}
+    r_ = ref(p_, q_)
+    if abs(m1 - r_) > 1e-9:
+        return {"ok": False, "msg": "squared MMD on a %d-subsystem register with kernel width %s differs from its definition" % (n, sig), "expected": r_, "observed": m1, "sig": "mmd-wide:value"}
+    return {"ok": True, "nt": case["pair"] != 4, "ops": 4, "out": "n%d" % n}
+
+
 def io_case(case):
     from orquestra.quantum import distributions as D
     ds = [mk_dist(x) for x in case["dists"]]
@@ -211,7 +291,7 @@ def io_case(case):
     return {"ok": True, "nt": True, "ops": 3, "out": "io"}
 
 
-FUNCS = {"marginals_wide": wide_marginal_case, "constructor": ctor_case, "marginals": marginal_case, "distances": distance_case, "save_load": io_case}
+FUNCS = {"near_normalised": near_case, "mmd_wide": wide_mmd_case, "marginals_wide": wide_marginal_case, "constructor": ctor_case, "marginals": marginal_case, "distances": distance_case, "save_load": io_case}
 
 
 def weight_dicts(w, maxw):
@@ -256,7 +336,10 @@ def run(run):
             cc.append({"items": items, "style": style, "valid": False, "why": why})
     cc.append({"items": [[[0.5, 1], 1]], "style": "tuple", "valid": False, "why": "non-integer key entry"})
     cc.append({"items": [[[-1, 1], 1]], "style": "tuple", "valid": False, "why": "negative key entry"})
-    secs = [Section("constructor", cc, ctor_case, desc="normalisation, proportions, caller's dict untouched, rejections")]
+    nc = [{"weights": ws, "delta": dl, "style": st} for ws in ([1, 3], [1, 2, 3, 4], [5, 1, 1, 1, 1, 1, 1, 1], [1, 1], [7, 0, 2, 1]) for dl in (1e-5, -1e-5, 3e-6, -1e-6, 5e-7, 1e-7, -1e-7, 2e-8, -1e-8, 1e-12, 0.0)
+          for st in ("tuple", "str")] + [{"weights": ws, "delta": 0.0, "f32": True} for ws in ([1, 3], [1, 2, 3, 4], [1, 1, 1], [3, 3, 1, 2, 2, 7, 9, 11], [0.1, 0.2, 0.3, 0.4])]
+    secs = [Section("near_normalised", nc, near_case, desc="almost normalised input (total 1 +- 1e-5 ... 1e-8, float32-rounded probabilities): the object sums to 1 by the library's own rule and keeps the proportions")]
+    secs += [Section("constructor", cc, ctor_case, desc="normalisation, proportions, caller's dict untouched, rejections")]
     mc_ = []
     W = 6 if deep else 5
     for w in range(1, W + 1):
@@ -294,6 +377,9 @@ def run(run):
     # outcomes of non-binary subsystems with multi-digit entries
     qpool = [[[[0, 10], 1], [[12, 1], 2]], [[[12, 1], 1], [[0, 10], 1], [[3, 0], 2]], [[[3, 0], 1]], [[[0, 10], 3], [[3, 0], 1]]]
     dc += [{"p": a, "q": b, "sigma": 1, "nonbinary": True, "eps": e} for a in qpool for b in qpool for e in (1e-9, 0.05)]
+    wm_ = [{"n": n_, "sigma": sg, "pair": k_} for n_ in ((12, 15, 16, 17, 20, 24, 31, 32, 33, 34, 40, 53, 54, 62, 63, 64, 65, 70, 100, 130) if thorough else (15, 16, 17, 24, 31, 32, 33, 40, 54, 63, 64, 65, 70, 130))
+           for sg in (1.0, [1.0, 4.0], 0.5, 1e9, 1e18, [1e12, 1e30], 1e40) for k_ in range(5)]
+    secs.append(Section("mmd_wide", wm_, wide_mmd_case, desc="squared MMD of sparse distributions on registers of 15-130 subsystems x 7 kernel widths: finite, symmetric, non-negative, zero on (p,p), equal to the definition with exact integer codes"))
     secs.append(Section("distances", dc, distance_case, desc="MMD / clipped NLL / JS laws on all ordered pairs of a %d-distribution pool" % len(pool)))
     secs.append(Section("save_load", [{"dists": [a, b]} for a in pool[::4] for b in pool[1::9]] + [{"dists": [z, pool[0]]} for z in zero] + [{"dists": [pool[1], z, z]} for z in zero[:2]] + [{"dists": [a, b]} for a in qpool for b in qpool[:2]], io_case, desc="save_/load_measurement_outcome_distribution(s)"))
     run.run_sections(secs)
